@@ -338,6 +338,6 @@ UNITS = [
     Unit("malformed", check_malformed, strategy=_malformed, quick=1500, thorough=40000,
          doc="malformed key encodings are rejected with TypeError/ValueError by from_bytes/from_hex"),
     _cfgunit.unit_under_config(PROPERTY, 'derive_sign', exclude=()),
-    _cfgunit.unit_under_config(PROPERTY, 'malformed', exclude=()),
-    _cfgunit.unit_under_config(PROPERTY, 'conversions', exclude=()),
+    _cfgunit.unit_under_config(PROPERTY, 'malformed', exclude=(), n_cases=40),
+    _cfgunit.unit_under_config(PROPERTY, 'conversions', exclude=(), closed_stdout=True, n_cases=30),
 ]
